@@ -22,6 +22,7 @@ RULE = ('random gridded IOAPI files (negative origins, non-square cells, '
         'window drops at least one cell/layer/step; distinct = digest of '
         'the spec.')
 RULE += (' Windows are also given as numpy integers; sources also written to disk and reopened.')
+RULE += (' A share of the gridded files is the IOAPI-class object the CAMx gridded READER (uamiv) returns for an image written by the independent codec (whole-hour steps up to 168 h, ETFLAG present, header completed by the class).')
 ASSUMPTIONS = [
     'time oracle = integer YYYYJJJ/HHMMSS arithmetic in the harness (not '
     'getTimes)',
@@ -97,7 +98,10 @@ def run_in(spec, res, d, h):
     from ..refsel import dec_sel
     fs = spec['file']
     f = gen_ioapi.build(fs)
-    if spec.get('notflag'):
+    if fs.get('via') == 'uamiv':
+        res.facet('source:camx-reader')
+    if spec.get('notflag') and fs.get('via') != 'uamiv':
+        # (a reader's file always has its time flags)
         del f.variables['TFLAG']
         res.facet('no-TFLAG-variable')
     elif spec.get('disk'):
